@@ -481,6 +481,17 @@ pub async fn walk(ds: &Dataset, raw: &RawStore, deep: bool) -> WalkOut {
         if let Err(e) = ds.validate().await {
             out.problems.push(("validate-error".into(), e.to_string()));
         }
+        match scan_count_with_rowid(ds).await {
+            Ok(n) => {
+                if n != live_total {
+                    out.problems.push((
+                        "rowid-scan-rows-ne-physical-minus-deleted".into(),
+                        format!("ordered scan with _rowid returned {} rows, manifest implies {}", n, live_total),
+                    ));
+                }
+            }
+            Err(e) => out.problems.push(("full-scan-with-rowid-error".into(), e)),
+        }
         match scan_count(ds).await {
             Ok(n) => {
                 if n != live_total {
@@ -672,6 +683,14 @@ pub async fn observe(ds: &Dataset, raw: &RawStore, deep: bool) -> (View, WalkOut
 
 async fn scan_count(ds: &Dataset) -> Result<u64, String> {
     let st = ds.scan().try_into_stream().await.map_err(|e| e.to_string())?;
+    let bs: Vec<arrow_array::RecordBatch> = st.try_collect().await.map_err(|e| e.to_string())?;
+    Ok(bs.iter().map(|b| b.num_rows() as u64).sum())
+}
+
+async fn scan_count_with_rowid(ds: &Dataset) -> Result<u64, String> {
+    let mut sc = ds.scan();
+    sc.with_row_id().scan_in_order(true);
+    let st = sc.try_into_stream().await.map_err(|e| e.to_string())?;
     let bs: Vec<arrow_array::RecordBatch> = st.try_collect().await.map_err(|e| e.to_string())?;
     Ok(bs.iter().map(|b| b.num_rows() as u64).sum())
 }
